@@ -91,8 +91,10 @@ func runRawReader(cfg, buf int, cs []liveChunk) (frames []liveMsg, panicked stri
 }
 
 // runListen sends the chunks through a testdrv loopback and collects what a midi.ListenTo listener receives.
-// The first time stamp of testdrv depends on the wall clock between New and Listen (sub-millisecond);
-// an extra 500 µs of virtual sleep before the first send makes the truncated value exact.
+// The first time stamp of testdrv depends on the wall clock between New and Listen (it is the virtual
+// clock minus the real time that passed, truncated to ms). It is calibrated with a probe: a Start
+// byte (FA: real-time, never filtered, transparent to the decoder) sent after one virtual second; the
+// probe is removed from the result and its deviation from 1000 ms is added back to every later stamp.
 func runListen(cfg, buf int, cs []liveChunk) (msgs []liveMsg, panicked string) {
 	panicked = try(func() {
 		drv := testdrv.New("verif")
@@ -112,13 +114,18 @@ func runListen(cfg, buf int, cs []liveChunk) (msgs []liveMsg, panicked string) {
 			opts = append(opts, midi.UseTimeCode())
 		}
 		opts = append(opts, midi.SysExBufferSize(uint32(buf)))
+		var raw []liveMsg
 		stop, err := midi.ListenTo(in, func(m midi.Message, ms int32) {
-			msgs = append(msgs, liveMsg{ms, append([]byte{}, m...)})
+			raw = append(raw, liveMsg{ms, append([]byte{}, m...)})
 		}, opts...)
 		if err != nil {
 			panic("ListenTo: " + err.Error())
 		}
-		drv.Sleep(500 * time.Microsecond)
+		const probeMs = 1000
+		drv.Sleep(probeMs * time.Millisecond)
+		if e := out.Send([]byte{0xFA}); e != nil {
+			panic("Send: " + e.Error())
+		}
 		for _, c := range cs {
 			drv.Sleep(time.Duration(c.delta) * time.Millisecond)
 			if e := out.Send(c.bytes); e != nil {
@@ -126,6 +133,17 @@ func runListen(cfg, buf int, cs []liveChunk) (msgs []liveMsg, panicked string) {
 			}
 		}
 		stop()
+		// calibrate
+		if len(raw) > 0 && len(raw[0].b) == 1 && raw[0].b[0] == 0xFA && raw[0].ts <= probeMs && raw[0].ts >= probeMs-50 {
+			base := raw[0].ts
+			for _, m := range raw[1:] {
+				msgs = append(msgs, liveMsg{m.ts - base, m.b})
+			}
+		} else { // the probe did not come back as sent: report what was received, uncalibrated
+			for _, m := range raw {
+				msgs = append(msgs, liveMsg{m.ts - probeMs, m.b})
+			}
+		}
 	})
 	return
 }
